@@ -27,8 +27,38 @@ NEAR_MISS = ["scripts", "br2", "styl", "style2", "imgs", "hr-x", "wbrr", "scrip"
 NEAR_P = 0.05
 
 
+#: literals that are new in the source (harness/literals.py); filled by `inject` before any case is generated
+EXTRA: list[str] = []
+
+
+def inject(words: list[str]) -> None:
+    """change-directed generation: make every pool know the literals a change introduced"""
+    import re as _re
+    for w in words:
+        if w in EXTRA:
+            continue
+        EXTRA.append(w)
+        TEXT_POOL.append(w)
+        HTML_POOL.append(w)
+        if _re.fullmatch(r"[A-Za-z][A-Za-z0-9:_.-]*", w):
+            CUSTOM.append(w)
+            ATTR_NAMES.append(w)
+        elif w and not _re.search(r"[\s\"'>/=<]", w):
+            ATTR_NAMES.append(w)
+
+
+def extra_or(rng: random.Random, pool, p: float = 0.3):
+    """a new source literal with probability p (when there is one), else a member of the pool"""
+    if EXTRA and rng.random() < p:
+        return rng.choice(EXTRA)
+    return rng.choice(pool)
+
+
 def rand_text(rng: random.Random, maxlen: int = 12) -> str:
     r = rng.random()
+    if EXTRA and r < 0.12:
+        w = rng.choice(EXTRA)
+        return rng.choice([w, w, w + rng.choice(META), rng.choice(META) + w, w.upper(), w + " " + rng.choice(EXTRA)])
     if r < 0.25:
         return rng.choice(TEXT_POOL)
     n = rng.randint(0, maxlen)
